@@ -19,11 +19,13 @@ Sites == {"top", "loop", "block", "macro"}
 HasWith(m) == m \in {"with", "withonly", "withvar", "withvaronly"}
 WithVar(m) == m \in {"withvar", "withvaronly"}
 IsOnly(m) == m \in {"only", "withonly", "withvaronly"}
-OverSpecs == {<<>>, <<"p">>, <<"q">>, <<"p", "q">>, <<"pP">>, <<"pP", "qP">>}     \* xP = override calling parent()
+OverSpecs == {<<>>, <<"p">>, <<"q">>, <<"p", "q">>, <<"pP">>, <<"pP", "qP">>, <<"pN">>}
+  \* xP = override calling parent(); pN = override of p whose body contains a nested block q (which overrides the target's q as well)
 OName(o) == SubSeq(o, 1, 1)
-OPar(o) == Len(o) = 2
+OPar(o) == Len(o) = 2 /\ SubSeq(o, 2, 2) = "P"
+ONest(o) == Len(o) = 2 /\ SubSeq(o, 2, 2) = "N"
 Complement(ov) == CASE ov = <<>> -> <<"p", "q">> [] ov = <<"p">> -> <<"q">> [] ov = <<"q">> -> <<"pP">>
-                    [] ov = <<"p", "q">> -> <<>> [] ov = <<"pP">> -> <<"qP">> [] OTHER -> <<"p">>
+                    [] ov = <<"p", "q">> -> <<>> [] ov = <<"pP">> -> <<"qP">> [] ov = <<"pN">> -> <<"q">> [] OTHER -> <<"p">>
 
 Configs ==
   { [kind |-> "include", mode |-> m, site |-> s, target |-> t, over |-> <<>>, hostp |-> hp, twice |-> tw]
@@ -39,7 +41,8 @@ X(c, ov) ==
   ELSE EmbedS(StrE(c.target), with, IsOnly(c.mode),
               [q \in 1..Len(ov) |-> [name |-> OName(ov[q]),
                                      body |-> <<Text("h" \o OName(ov[q])), PrintS(NameE("w"))>>
-                                              \o (IF OPar(ov[q]) THEN <<Text("("), PrintS(CallE("parent", <<>>)), Text(")")>> ELSE <<>>)]])
+                                              \o (IF OPar(ov[q]) THEN <<Text("("), PrintS(CallE("parent", <<>>)), Text(")")>> ELSE <<>>)
+                                              \o (IF ONest(ov[q]) THEN <<Text("["), BlockS("q", <<Text("nq"), PrintS(NameE("w"))>>), Text("]")>> ELSE <<>>)]])
 Constructs(c) == IF c.twice THEN <<X(c, c.over), Text("+"), X(c, Complement(c.over))>> ELSE <<X(c, c.over)>>
 
 Host(c) ==
@@ -72,8 +75,13 @@ VW(c) == IF HasWith(c.mode) THEN "3" ELSE ""
 VV(c, iter) == IF IsOnly(c.mode) THEN "" ELSE IF c.site = "loop" THEN ToString(iter) ELSE "o"     \* the loop variable shadows the host's v
 Has(ov, b) == \E q \in 1..Len(ov) : OName(ov[q]) = b
 ParOf(ov, b) == \E q \in 1..Len(ov) : OName(ov[q]) = b /\ OPar(ov[q])
+NestOf(ov, b) == \E q \in 1..Len(ov) : OName(ov[q]) = b /\ ONest(ov[q])
+NestsQ(ov) == \E q \in 1..Len(ov) : ONest(ov[q])
 Blk(c, ov, b, base) ==      \* block b of the embedded/included target whose own version renders `base`
-  IF c.kind = "embed" /\ Has(ov, b) THEN "h" \o b \o VW(c) \o (IF ParOf(ov, b) THEN "(" \o base \o ")" ELSE "") ELSE base
+  IF c.kind = "embed" /\ Has(ov, b)
+  THEN "h" \o b \o VW(c) \o (IF ParOf(ov, b) THEN "(" \o base \o ")" ELSE "") \o (IF NestOf(ov, b) THEN "[nq" \o VW(c) \o "]" ELSE "")
+  ELSE IF c.kind = "embed" /\ b = "q" /\ NestsQ(ov) THEN "nq" \o VW(c)
+  ELSE base
 One(c, ov, iter) ==
   CASE c.target = "tv" -> "<" \o VA(c) \o "|" \o VB(c) \o "|" \o VW(c) \o "|" \o VV(c, iter) \o ">"
     [] c.target = "ts" -> "<XN>"
